@@ -60,10 +60,6 @@ class Recorder:
         self.task_obj = {}
         self.crash = None
         self.wire_ctx = []  # (context id the variable pointed to, name hint) per WireStart, for linking sub-requests
-        self.abandoned = []  # event numbers of steps that left live child tasks behind (outside the usage discipline)
-        self.joined = set()  # finished child tasks whose Join event has been recorded
-        self.depth = {}  # task id -> number of request contexts it has open itself
-        self.spawn_depth = {}  # task id -> depth of its creator when it was created
         self.hint = None
 
     # -- tasks
@@ -78,7 +74,6 @@ class Recorder:
         if parent is not None and parent in self.tasks:
             pid = self.tasks[parent]
             self.parent[tid] = pid
-            self.spawn_depth[tid] = self.depth.get(pid, 0)
             self.event("Spawn", pid, u=tid, ucur=self.cur_of(task))
             task.add_done_callback(self._done)
         else:
@@ -88,14 +83,6 @@ class Recorder:
     def _done(self, task):
         tid = self.tasks[task]
         self.event("Join", self.parent[tid], u=tid)
-        self.joined.add(tid)
-        if self.live_children(tid, 0):
-            # the task ended (by an exception) without awaiting the tasks it created
-            self.abandoned.append(len(self.events))
-
-    def live_children(self, tid, depth):
-        """Unfinished tasks that `tid` created while it had at least `depth` request contexts open."""
-        return [u for u, p in self.parent.items() if p == tid and u not in self.joined and self.spawn_depth.get(u, 0) >= depth]
 
     def me(self):
         t = asyncio.current_task()
@@ -195,20 +182,12 @@ class ObservedManager:
         self._real.__enter__()
         rec = self._rec
         self.n = rec.register(self._real)
-        me = rec.me()
-        rec.depth[me] = rec.depth.get(me, 0) + 1
-        rec.event("Enter", me, par=rec.ptr(self._real.token.old_value))
+        rec.event("Enter", rec.me(), par=rec.ptr(self._real.token.old_value))
         return self
 
     def __exit__(self, exc_type, exc_val, exc_tb):
         r = self._real.__exit__(exc_type, exc_val, exc_tb)
-        rec = self._rec
-        me = rec.me()
-        rec.event("Exit", me, raised=exc_type is not None)
-        if rec.live_children(me, rec.depth.get(me, 0)):
-            # the block is left while tasks created inside it still run (cancelled, not awaited)
-            rec.abandoned.append(len(rec.events))
-        rec.depth[me] = rec.depth.get(me, 0) - 1
+        self._rec.event("Exit", self._rec.me(), raised=exc_type is not None)
         return r
 
     @property
@@ -494,7 +473,7 @@ def run_script(script):
                 pass
             asyncio.set_event_loop(None)
             loop.close()
-    return {"roots": roots, "ev": events, "crash": rec.crash, "abandoned": list(rec.abandoned)}
+    return {"roots": roots, "ev": events, "crash": rec.crash}
 
 
 # ---------------------------------------------------------------------------------------------------
@@ -731,7 +710,7 @@ def run_composite(case):
                 pass
             asyncio.set_event_loop(None)
             loop.close()
-    return {"roots": list(range(1, nclients + 1)), "ev": events, "crash": rec.crash, "abandoned": list(rec.abandoned)}
+    return {"roots": list(range(1, nclients + 1)), "ev": events, "crash": rec.crash}
 
 
 # ---------------------------------------------------------------------------------------------------
@@ -783,12 +762,14 @@ def composite_from_script(script, rnd):
                 continue
             streams = []
             end_all = t0
-            # the sub-request that ends last fails (timeout / API error) if its block was left by an exception in the scenario:
-            # every other stream has finished by then, the composite ends with it
+            # one sub-request whose block was left by an exception in the scenario fails (timeout / API error): the one that ends
+            # last (every other stream has finished, the composite ends with it) or any of them (other streams are in flight:
+            # Composite has to stop and await them; later sub-requests of the scenario are not issued)
             allw = [w for t in groups[key] for w in groups[key][t]]
+            cand = [w for w in allw if w[3] in raised_ctx]
             latest = max(w[1] for w in allw)
-            failing = [w for w in allw if w[1] == latest]
-            failing = failing[0] if len(failing) == 1 and failing[0][3] in raised_ctx else None
+            last = [w for w in cand if w[1] == latest]
+            failing = (last[0] if last and rnd.random() < 0.5 else rnd.choice(cand)) if cand else None
             for t in sorted(groups[key]):
                 prev = t0
                 ops = []
